@@ -368,7 +368,40 @@ def audit_casts(name, body):
                 NARROWING.append((name, "%s is read as %s but used `as %s` in `%s`" % (v, decl[v], t, s[:90].replace('"', "'"))))
 
 
+R_FORMATS = {}   # marker type name -> (int type, FORMAT constant)
+R_UNIONS = {}    # enum name -> (tag width, [(variant, type name, FORMAT)]) or ("skip", reason)
+W_ENUMS = {}     # enum name -> [(variant, type name)] or ("skip", reason)
+
+
+def read_union(name, rb):
+    """`let format: uN = data.read_at(0usize)?; match format { <T>Marker::FORMAT => Ok(Self::<V>(FontRead::read(data)?)), .., other => Err(..) }`"""
+    m = re.search(r"let format: (u8|u16|u32) = data\.read_at\(0usize\)\?;\s*match format \{", rb)
+    if not m:
+        return ("skip", "format enum: tag is not `let format: uN = data.read_at(0)`")
+    mb, _ = block_at(rb, m.end() - 1)
+    arms = []
+    for arm in [a.strip() for a in re.split(r",\s*\n", mb) if a.strip()]:
+        arm = " ".join(arm.split()).rstrip(",")
+        am = re.fullmatch(r"(\w+)Marker::FORMAT => Ok\(Self::(\w+)\(FontRead::read\(data\)\?\)\)", arm)
+        if am:
+            ty = am.group(1)
+            if ty not in R_FORMATS:
+                return ("skip", "format enum: no FORMAT constant for %s" % ty)
+            if R_FORMATS[ty][0] != m.group(1):
+                return ("skip", "format enum: FORMAT type of %s differs from the tag type" % ty)
+            arms.append((am.group(2), ty, R_FORMATS[ty][1]))
+        elif re.fullmatch(r"other => Err\(ReadError::InvalidFormat\(other\.into\(\)\)\)", arm):
+            continue
+        else:
+            return ("skip", "format enum: read arm outside the DSL: " + arm[:60])
+    return (width_of(m.group(1)), arms)
+
+
 def scan_read(files):
+    for f in files:
+        src = open(f).read()
+        for m in re.finditer(r"impl Format<(\w+)> for (\w+)Marker \{\s*const FORMAT: \w+ = (\d+);", src):
+            R_FORMATS[m.group(2)] = (m.group(1), int(m.group(3)))
     for f in files:
         src = open(f).read()
         read_records(src)
@@ -393,6 +426,8 @@ def scan_read(files):
             mm = re.search(r"impl %sMarker \{" % name, src)
             if not mm:
                 R_TABLES[name] = ("skip", "format enum / no marker" if "match format" in rb else "no marker impl")
+                if "match format" in rb:
+                    R_UNIONS[name] = read_union(name, rb)
                 continue
             ib, _ = block_at(src, mm.end() - 1)
             try:
@@ -607,11 +642,44 @@ def scan_write(files):
             if m.group(2):
                 W_TABLES[m.group(1)] = ("skip", "generic type")
             W_STRUCTS[m.group(1)] = fields
+        enums = {}
+        for m in re.finditer(r"pub enum (\w+) \{", src):
+            body, _ = block_at(src, m.end() - 1)
+            vs = []
+            for line in strip_attrs(re.sub(r"///[^\n]*", "", body)).split(",\n"):
+                line = " ".join(line.split()).rstrip(",")
+                if not line:
+                    continue
+                vm = re.fullmatch(r"(\w+)\((\w+)\)", line)
+                vs.append((vm.group(1), vm.group(2)) if vm else ("?", line[:50]))
+            enums[m.group(1)] = vs
         for m in re.finditer(r"impl(<[^>]*>)? FontWrite for (\w+)(<[^>]*>)? \{", src):
             name = m.group(2)
             body, _ = block_at(src, m.end() - 1)
             fm = re.search(r"fn write_into\(&self, writer: &mut TableWriter\) \{", body)
             wb, _ = block_at(body, fm.end() - 1)
+            if name in enums and not (m.group(1) or m.group(3)):
+                # `match self { Self::<V>(item) => item.write_into(writer), .. }`
+                mm = re.search(r"^\s*match self \{", wb)
+                if not mm:
+                    W_ENUMS[name] = ("skip", "format enum: write_into is not `match self`")
+                else:
+                    mb, _ = block_at(wb, mm.end() - 1)
+                    arms = [" ".join(a.split()).rstrip(",") for a in re.split(r",\s*\n", mb) if a.strip()]
+                    got = []
+                    bad = None
+                    for arm in arms:
+                        am = re.fullmatch(r"Self::(\w+)\(item\) => item\.write_into\(writer\)", arm)
+                        if not am:
+                            bad = arm
+                            break
+                        got.append(am.group(1))
+                    if bad is not None:
+                        W_ENUMS[name] = ("skip", "format enum: write arm outside the DSL: " + bad[:60])
+                    elif got != [v for v, _ in enums[name]] or any(v == "?" for v, _ in enums[name]):
+                        W_ENUMS[name] = ("skip", "format enum: write arms do not match the enum's variants")
+                    else:
+                        W_ENUMS[name] = enums[name]
             if m.group(1) or m.group(3):
                 W_TABLES[name] = ("skip", "generic type")
                 continue
@@ -698,6 +766,36 @@ def main():
             skipped.append((name, w[1]))
         else:
             pairs.append((name, r, w))
+    pairset = {n for n, _, _ in pairs}
+    unions = []
+    skipped2 = []
+    for name, why in skipped:
+        if why != "format enum / no marker":
+            skipped2.append((name, why))
+            continue
+        ru, wu = R_UNIONS.get(name), W_ENUMS.get(name)
+        reason = None
+        if ru is None or wu is None:
+            reason = "format enum: no %s-side enum of this shape" % ("read" if ru is None else "write")
+        elif ru[0] == "skip":
+            reason = ru[1]
+        elif wu[0] == "skip":
+            reason = wu[1]
+        else:
+            for v, ty, _ in ru[1]:
+                if ty not in pairset:
+                    reason = "format enum: variant %s (%s) is outside the DSL" % (v, ty)
+                    break
+            if reason is None:
+                for v, ty in wu:
+                    if ty not in pairset:
+                        reason = "format enum: variant %s (%s) is outside the DSL" % (v, ty)
+                        break
+        if reason is not None:
+            skipped2.append((name, reason))
+        else:
+            unions.append((name, ru, wu))
+    skipped = skipped2
     with open(OUT, "w") as o:
         o.write("(* GENERATED by translators/c04_extract.py from /repo/read-fonts/generated and /repo/write-fonts/generated.\n"
                 "   DO NOT EDIT.  R_<T>: read side only.  W_<T>: write side only (literal / computed scalars are unnamed there).\n"
@@ -710,6 +808,16 @@ def main():
             o.write("Definition W_%s : schema :=\n  %s.\n\n" % (name, cschema(w)))
         o.write("Definition all_pairs : list (string * schema * schema) :=\n  [" +
                 ";\n   ".join('("%s", R_%s, W_%s)' % (n, n, n) for n, _, _ in pairs) + "].\n\n")
+        o.write("(* format enums whose variants are all extracted pairs.  UR_<E>: read side — width of the leading `format` tag and, per\n"
+                "   `match format` arm in source order, (variant, <T>Marker::FORMAT, R_<T>).  UW_<E>: write side — per `match self` arm\n"
+                "   (variant, W_<T>).  Extracted independently from read-fonts / write-fonts. *)\n")
+        for name, ru, wu in unions:
+            o.write("Definition UR_%s : nat * list (string * Z * schema) :=\n  (%d%%nat, [%s]).\n" % (
+                name, ru[0], "; ".join('("%s", %d, R_%s)' % (v, k, ty) for v, ty, k in ru[1])))
+            o.write("Definition UW_%s : list (string * schema) :=\n  [%s].\n\n" % (
+                name, "; ".join('("%s", W_%s)' % (v, ty) for v, ty in wu)))
+        o.write("Definition all_unions : list (string * (nat * list (string * Z * schema)) * list (string * schema)) :=\n  [" +
+                ";\n   ".join('("%s", UR_%s, UW_%s)' % (n, n, n) for n, _, _ in unions) + "].\n\n")
         o.write("(* integer narrowing casts of data-read variables inside generated readers (must be empty) *)\n")
         o.write("Definition narrowing_casts : list (string * string) :=\n  [" +
                 ";\n   ".join('("%s", "%s")' % (n, why) for n, why in NARROWING) + "].\n\n")
@@ -737,7 +845,7 @@ def main():
     for d in diag:
         print("    " + d)
     hist = Counter(re.sub(r"`.*`|:.*", "", why) for _, why in skipped)
-    print("c04_extract: %d pairs, %d skipped, %d narrowing casts in readers" % (len(pairs), len(skipped), len(NARROWING)))
+    print("c04_extract: %d pairs, %d format enums (unions), %d skipped, %d narrowing casts in readers" % (len(pairs), len(unions), len(skipped), len(NARROWING)))
     for n, why in NARROWING:
         print("  NARROWING %s: %s" % (n, why))
     for k, v in hist.most_common():
